@@ -165,14 +165,14 @@ def run(chk, model_ok=True):
     loc = dict(auth_kt="localized", priv_kt="localized")
     peers = [e2e.Peer("v1"), e2e.Peer("v2c"), e2e.Peer("v3", auth=0, priv=0), e2e.Peer("v3", auth=2, priv=2, **loc),
              e2e.Peer("v3", auth=1, priv=1, **loc)]
-    n = 60 if quick else 1200
+    n = 120 if quick else 4800
     cases = []
     for k in range(n):
         shape, sched = gen_schedule(rng)
         cases.append({"mode": "sync" if k % 2 == 0 else "async", "peer": peers[k % len(peers)], "shape": shape, "sched": sched})
     # histories on one blocking session: earlier calls that skipped datagrams and then timed out (or were
     # answered) must leave the session's timeout as configured for the next call
-    for k in range(10 if quick else 200):
+    for k in range(20 if quick else 800):
         before = []
         for _ in range(rng.randrange(1, 3)):
             ts = sorted(rng.sample(range(0, T_TICKS - 1), rng.randrange(1, 4)))
